@@ -53,7 +53,25 @@ class PeerConn:
         self.pump()
 
     # -------------------------------------------------- requests usable from scripts (yield them)
+    def track(self):
+        alive = not (self.end.sent_fin or self.end.rx.fin or self.end.rx.rst)
+        live = getattr(self.owner, 'live_set', None)
+        if live is None:
+            return
+        if alive:
+            live.add(self.ordinal)
+            if len(live) > self.owner.peak_live:
+                self.owner.peak_live = len(live)
+        else:
+            live.discard(self.ordinal)
+
     def pump(self):
+        try:
+            self._pump()
+        finally:
+            self.track()
+
+    def _pump(self):
         if self.done:
             return
         while True:
@@ -248,7 +266,7 @@ class SimSSHServer:
         self.nconn = 0              # SYNs seen
         self.accepted = 0
         self.conns = []
-        self.live = 0
+        self.live_set = set()
         self.peak_live = 0
         self.log = {'name': self.name, 'syns': 0, 'gex_requests': [], 'gex_handed': [], 'hostkeys_sent': [], 'kexinits_rx': [],
                     'banners_rx': [], 'kex_inits': 0}
@@ -288,8 +306,6 @@ class SimSSHServer:
     def accept(self, conn):
         ordinal = self.accepted
         self.accepted += 1
-        self.live += 1
-        self.peak_live = max(self.peak_live, self.live)
         pc = PeerConn(self.w, conn.b, self, ordinal, self.script)
         self.conns.append(pc)
 
@@ -351,10 +367,7 @@ class SimSSHServer:
     def script(self, pc):
         p = self.p
         log = pc.log
-        try:
-            yield from self._script(pc, p, log)
-        finally:
-            self.live -= 1
+        yield from self._script(pc, p, log)
 
     def _script(self, pc, p, log):
         adm = p.get('admission', {})
